@@ -1,6 +1,10 @@
 package gosym
 
 import (
+	"runtime"
+	"strconv"
+	"time"
+
 	"golang.org/x/tools/go/ssa"
 )
 
@@ -8,8 +12,40 @@ import (
 // engine decisions). In single-thread mode yield is a no-op and a blocking
 // wait that cannot make progress is a deadlock.
 
+// threadSet: a cooperative scheduler. Every symbolic thread runs in its own host
+// goroutine but only one of them runs at a time (baton passing), so the executor's state
+// needs no locking. Context switches happen only at yield points (sync, sync/atomic,
+// channel operations, runtime.Gosched, verif.Yield); which runnable thread continues is an
+// engine decision (explored like a branch), bounded by a maximum number of preemptions.
 type threadSet struct {
-	n int
+	ths         []*symThread
+	cur         *symThread
+	events      chan threadEvent
+	dead        bool
+	preemptions int
+	maxPreempt  int
+	switches    int
+}
+
+type symThread struct {
+	id      int
+	resume  chan struct{}
+	done    bool
+	blocked func() bool
+	why     string
+	fv      *FuncV
+	args    []Value
+	// per-thread interpreter state
+	depth     int
+	callStack []string
+	curFrame  *frame
+	curPanic  *goPanic
+}
+
+type threadEvent struct {
+	t     *symThread
+	kind  string // "yield" | "blocked" | "done" | "panic"
+	panic interface{}
 }
 
 func (e *Exec) yield(why string) {
@@ -56,11 +92,6 @@ func (e *Exec) doGo(fr *frame, g *ssa.Go) {
 	e.threadSpawn(fv, args)
 }
 
-func (e *Exec) threadYield(why string)                 {}
-func (e *Exec) threadWait(cond func() bool, why string) { e.abort("harness-error", "deadlock: %s", why) }
-func (e *Exec) threadSpawn(fv *FuncV, args []Value)    {}
-func (e *Exec) finishThreads()                         {}
-
 type pendingGo struct {
 	fv   *FuncV
 	args []Value
@@ -73,4 +104,194 @@ func (e *Exec) runPendingGo() {
 		e.pendingGo = e.pendingGo[1:]
 		e.callFunc(g.fv, g.args, "go")
 	}
+}
+
+func (e *Exec) saveThread(t *symThread) {
+	t.depth, t.callStack, t.curFrame, t.curPanic = e.depth, e.callStack, e.curFrame, e.curPanic
+}
+
+func (e *Exec) loadThread(t *symThread) {
+	e.depth, e.callStack, e.curFrame, e.curPanic = t.depth, t.callStack, t.curFrame, t.curPanic
+}
+
+// threadPark hands the baton back to the scheduler and waits to be resumed.
+func (e *Exec) threadPark(ev threadEvent) {
+	ts := e.threads
+	t := ts.cur
+	ev.t = t
+	ts.events <- ev
+	<-t.resume
+	if ts.dead {
+		runtime.Goexit()
+	}
+}
+
+func (e *Exec) threadYield(why string) {
+	if e.threads == nil || e.threads.cur == nil {
+		return
+	}
+	e.threads.cur.why = why
+	e.threadPark(threadEvent{kind: "yield"})
+}
+
+func (e *Exec) threadWait(cond func() bool, why string) {
+	if e.threads.cur == nil {
+		e.abort("harness-error", "deadlock: %s (outside any thread)", why)
+	}
+	for !cond() {
+		t := e.threads.cur
+		t.blocked, t.why = cond, why
+		e.threadPark(threadEvent{kind: "blocked"})
+		t.blocked = nil
+	}
+}
+
+func (e *Exec) threadSpawn(fv *FuncV, args []Value) {
+	ts := e.threads
+	t := &symThread{id: len(ts.ths), resume: make(chan struct{}), fv: fv, args: args}
+	ts.ths = append(ts.ths, t)
+	go func() {
+		<-t.resume
+		if ts.dead {
+			return
+		}
+		defer func() {
+			if r := recover(); r != nil {
+				ts.events <- threadEvent{t: t, kind: "panic", panic: r}
+				return
+			}
+			ts.events <- threadEvent{t: t, kind: "done"}
+		}()
+		e.callFunc(t.fv, t.args, "thread")
+	}()
+}
+
+func (ts *threadSet) kill() {
+	ts.dead = true
+	for _, t := range ts.ths {
+		if !t.done {
+			select {
+			case t.resume <- struct{}{}:
+			default:
+				// the goroutine is not parked on resume (it is the one that panicked
+				// and already exited, or has not started): nothing to release
+				go func(t *symThread) {
+					select {
+					case t.resume <- struct{}{}:
+					case <-time.After(2 * time.Second):
+					}
+				}(t)
+			}
+		}
+	}
+}
+
+// runThreads runs fs as concurrent threads to completion under the scheduler.
+func (e *Exec) runThreads(fs []*FuncV, maxPreempt int) {
+	if e.threads != nil {
+		e.abort("harness-error", "nested verif.Threads")
+	}
+	ts := &threadSet{events: make(chan threadEvent), maxPreempt: maxPreempt}
+	e.threads = ts
+	mainDepth, mainStack, mainFrame, mainPanic := e.depth, e.callStack, e.curFrame, e.curPanic
+	for _, f := range fs {
+		e.threadSpawn(f, nil)
+		ts.ths[len(ts.ths)-1].callStack = append([]string(nil), mainStack...)
+		ts.ths[len(ts.ths)-1].depth = mainDepth
+	}
+	e.stubs["goroutines under verif.Threads: cooperative scheduler, context switches only at sync / sync/atomic / channel operations and verif.Yield points, sequentially consistent memory between them; every schedule within the preemption bound is explored"] = true
+	defer func() {
+		if r := recover(); r != nil {
+			ts.kill()
+			e.threads = nil
+			e.depth, e.callStack, e.curFrame, e.curPanic = mainDepth, mainStack, mainFrame, mainPanic
+			panic(r)
+		}
+	}()
+	var last *symThread
+	for {
+		var runnable []*symThread
+		alive := 0
+		for _, t := range ts.ths {
+			if t.done {
+				continue
+			}
+			alive++
+			if t.blocked == nil || t.blocked() {
+				runnable = append(runnable, t)
+			}
+		}
+		if alive == 0 {
+			break
+		}
+		if len(runnable) == 0 {
+			why := ""
+			for _, t := range ts.ths {
+				if !t.done {
+					why += " [thread " + strconv.Itoa(t.id) + ": " + t.why + "]"
+				}
+			}
+			e.check(e.tb.False, "deadlock: every live goroutine is blocked"+why, "assert")
+			e.abort("infeasible", "deadlock")
+		}
+		var next *symThread
+		lastRunnable := false
+		for _, t := range runnable {
+			if t == last {
+				lastRunnable = true
+			}
+		}
+		if lastRunnable && ts.preemptions >= ts.maxPreempt {
+			next = last // preemption budget used up: keep running the same thread
+		} else {
+			k := e.choose(len(runnable), "sched")
+			next = runnable[k]
+			if lastRunnable && next != last {
+				ts.preemptions++
+			}
+		}
+		ts.switches++
+		if ts.switches > 4000 {
+			e.abort("bound-exceeded", "more than 4000 scheduling steps")
+		}
+		ts.cur = next
+		e.loadThread(next)
+		next.resume <- struct{}{}
+		ev := <-ts.events
+		e.saveThread(ev.t)
+		ts.cur = nil
+		last = ev.t
+		switch ev.kind {
+		case "done":
+			ev.t.done = true
+		case "panic":
+			ev.t.done = true
+			panic(ev.panic)
+		}
+	}
+	e.threads = nil
+	e.depth, e.callStack, e.curFrame, e.curPanic = mainDepth, mainStack, mainFrame, mainPanic
+}
+
+func (e *Exec) finishThreads() {}
+
+func init() {
+	extraIntrinsics = append(extraIntrinsics, func(w *World) {
+		V := VerifPkgPath + "."
+		// Threads(fs ...func()): run fs concurrently under the symbolic scheduler.
+		w.reg(V+"Threads", func(e *Exec, fn *ssa.Function, a []Value) Value {
+			sl := a[0].(SliceV)
+			var fs []*FuncV
+			for i := 0; i < sl.Len; i++ {
+				f, ok := e.load(sl.Arr.Kids[sl.Off+i]).(*FuncV)
+				if !ok || f == nil {
+					e.abort("harness-error", "verif.Threads: nil func")
+				}
+				fs = append(fs, f)
+			}
+			e.runThreads(fs, e.W.Opts.MaxPreempt)
+			return nil
+		})
+		w.reg(V+"Yield", func(e *Exec, fn *ssa.Function, a []Value) Value { e.yield("verif.Yield"); return nil })
+	})
 }
